@@ -264,6 +264,11 @@ def jobs(tier="quick", seed=0):
     yield Job("C19/delete_symbol-histories", delete_symbol_history_harness, kind="E", func="gtirb_rewriting.rewriting:RewritingContext.delete_symbol", expect_cover=("enumerated",))
     from . import c19_d
     yield from c19_d.jobs(tier, seed)
+    # the accessor through which every table update above reaches the module
+    from . import kernel_auxdata
+    for j in kernel_auxdata.jobs(tier, seed):
+        j.id = "C19/" + j.id
+        yield j
     yield Job("C19/delete_symbol", delete_symbol_harness, setup=lambda: shims.installed([RW]), kind="D",
               func="gtirb_rewriting.rewriting:RewritingContext.delete_symbol")
     yield Job("C19/delete_symbols-bounded", bounded(tier, seed), kind="B", func="gtirb_rewriting._modify.delete_symbols:delete_symbols")
